@@ -70,7 +70,7 @@ def worldOf (j : Json) : Except String (FieldOps.World Term) := do
   let frames := match j.getObjValAs? Nat "df_col" with
     | .ok fid => [(0, [("x", fid)])]
     | .error _ => [(0, [])]
-  pure { fields := cells.reverse, next := next, frames := frames }
+  pure { fields := cells, next := next, frames := frames }
 
 def runJson (j : Json) : Except String Json := do
   let w ← worldOf j
@@ -79,20 +79,21 @@ def runJson (j : Json) : Except String Json := do
   let (out, called) ← match FieldOps.pyUnary pyop with
     | some d => do
       let id ← get? Nat j "self"
-      pure (FieldOps.opUnary np w pyop id, (w.classOf id, d))
+      pure (FieldOps.opUnary np w pyop id, (w.classOf id, d, true))
     | none => do
       let l ← operandOf (← j.getObjVal? "left")
       let r ← operandOf (← j.getObjVal? "right")
       let ds := (FieldOps.pyDunders pyop).getD ("?", "?")
       let d := if l.isField then ds.1 else ds.2
-      pure (FieldOps.opBinary np w pyop l r, (FieldOps.dispatchClass w l r, d))
+      pure (FieldOps.opBinary np w pyop l r, (FieldOps.dispatchClass w l r, d, l.isField))
   -- the static route of the dunder Python ends up calling (what `c13_resolve` reports)
+  -- `ord` is relative to the field Python dispatches on (0 = that field, 1 = the other operand); `disp_left`: it is the left one
   let route := match called with
-    | (some cls, d) => FieldOps.resolve cls d
+    | (some cls, d, _) => FieldOps.resolve cls d
     | _ => none
   let routeJ := match route with
-    | some (sym, ord) => [("sym", Json.str sym), ("ord", nats ord)]
-    | none => [("sym", Json.null), ("ord", Json.null)]
+    | some (sym, ord) => [("sym", Json.str sym), ("ord", nats ord), ("disp_left", Json.bool called.2.2)]
+    | none => [("sym", Json.null), ("ord", Json.null), ("disp_left", Json.bool called.2.2)]
   match out with
   | .error e => pure (okJson (Json.mkObj (routeJ ++ [("run_err", Json.str e.tag)])))
   | .ok (w', ids) =>
